@@ -36,6 +36,7 @@ def universe(tier):
     d1 += [F('f', t, u) for t in base for u in base]
     d1 += [F('g', t) for t in base]
     d1 += [F('.', t, u) for t in base for u in base]
+    core = list(d1)     # what the depth-2 universe of the thorough tier is built from
     # Python constants that are false in a boolean context or are None: a value that an implementation
     # might confuse with "no value"
     # ... and numbers whose Python hashes collide although they differ (hash(-1) == hash(-2), and
@@ -54,14 +55,14 @@ def universe(tier):
         return d1
     d2 = list(d1)
     seen = set(d1)
-    for t in d1:
+    for t in core:
         for cand in (F('f', t), F('g', t)):
             if cand not in seen and term_size(cand) <= 4:
                 seen.add(cand)
                 d2.append(cand)
     for name in ('f', '.'):
-        for t in d1:
-            for u in d1:
+        for t in core:
+            for u in core:
                 cand = F(name, t, u)
                 if cand not in seen and term_size(cand) <= 4:
                     seen.add(cand)
